@@ -400,10 +400,6 @@ def links_up_prefix(root: str) -> bool:
         raise Unsupported('type_info.j2: expected exactly one href built with url_from_type')
     h = re.sub(r'\s+', '', hrefs[0])
     calls = [re.sub(r'\s+', '', c) for c in re.findall(r'\{\{\s*(generate_(?:type|namespace)_info\(.*?\))\s*\}\}', ti + ni + nsp)]
-    if h == '{{t|url_from_type}}':
-        if any(c.endswith(',up)') for c in calls) or 'up=' in ti:
-            raise Unsupported('`up` is passed around but not used in the type link')
-        return False
     if h == '{{up}}{{t|url_from_type}}':
         want_ti = 'generate_type_info(t,attr_name,nested=False,up="")'
         if want_ti not in re.sub(r'\s+', '', ti) or 'generate_namespace_info(t,up="")' not in re.sub(r'\s+', '', ni):
@@ -424,9 +420,7 @@ def id_scheme(html_mod: ast.Module, root: str) -> typing.Tuple[bool, str]:
     Two shapes each are recognised (pinned tree / design_notes/C20_tag_id_fix.patch); anything else fails closed."""
     fn = pyfun_tr.find_function(html_mod, None, 'filter_tag_id')
     src = ast.unparse(fn)
-    if "'{}_{}_{}'.format(instance.full_name.replace('.', '_')" in src:
-        dashed = False
-    elif "'{}-{}-{}'.format(instance.full_name.replace('.', '-')" in src:
+    if "'{}-{}-{}'.format(instance.full_name.replace('.', '-')" in src:
         dashed = True
     else:
         raise Unsupported('filter_tag_id: unrecognised id format for composite types')
@@ -436,14 +430,44 @@ def id_scheme(html_mod: ast.Module, root: str) -> typing.Tuple[bool, str]:
     if len(sets) != 2 or re.sub(r'\s+', '', sets[0]) != 't|tag_id':
         raise Unsupported('type_info.j2: type_tag_id is not set exactly twice (tag_id, then make_unique)')
     second = re.sub(r'\s+', '', sets[1])
-    if second == 'type_tag_id|make_unique':
-        sep = ''
-    else:
+    if True:
         mm = re.fullmatch(r'''\(type_tag_id~(["'])([-A-Za-z_]*)\1\)\|make_unique''', second)
         if not mm:
             raise Unsupported('type_info.j2: unrecognised nested id expression %s' % sets[1])
         sep = mm.group(2)
     return dashed, sep
+
+
+def us_link_state(root: str) -> bool:
+    """does type_info.j2 refrain from linking a type that is not listed (short name `_`, or the halves of a service named `_`)?
+    Two shapes: the pinned one (always links) and the one of design_notes/C20_us_link_fix.patch."""
+    with open(os.path.join(root, 'type_info.j2'), encoding='utf-8') as f:
+        ti = re.sub(r'\s+', '', f.read())
+    if 'link_name' not in ti:
+        return False
+    want = ('{%ifnested%}{%setlink_name=t.full_namespaceift.has_parent_serviceelset.full_name%}{%iflink_name.split(".")[-1]!="_"%}'
+            '<ahref="{{up}}{{t|url_from_type}}">{{t.full_name}}(v{{t.version[0]}}.{{t.version[1]}})</a>{%else%}'
+            '{{t.full_name}}(v{{t.version[0]}}.{{t.version[1]}}){%endif%}{{attr_name}}{%else%}')
+    if want in ti and ti.count('link_name') == 2:
+        return True
+    raise Unsupported('type_info.j2: unrecognised guard around the type link')
+
+
+def ns_id_state(root: str) -> bool:
+    """namespace ids: '_'-joined components (pinned) or '-'-joined components + '--ns' (design_notes/C20_ns_id_fix.patch),
+    consistently in namespace_info.j2, sidebar.j2 and the selector in Namespace.j2"""
+    def read(n):
+        with open(os.path.join(root, n), encoding='utf-8') as f:
+            return f.read()
+    ni, sb, nsp = read('namespace_info.j2'), read('sidebar.j2'), read('Namespace.j2')
+    old = '{{ t.full_name.replace(".", "_") }}'
+    new = '{{ t.full_name.replace(".", "-") }}--ns'
+    counts = (ni.count(old), sb.count(old), ni.count(new), sb.count(new))
+    if counts == (4, 5, 0, 0) and 'querySelector("#{{ T.full_name }}")' in nsp:
+        return False
+    if counts == (0, 0, 4, 5) and 'querySelector("#{{ T.full_name.replace(".", "-") }}--ns")' in nsp:
+        return True
+    raise Unsupported('namespace ids are built in an unrecognised / inconsistent way %r' % (counts,))
 
 
 def gen_html() -> typing.Tuple[bool, str]:
@@ -469,6 +493,11 @@ def gen_html() -> typing.Tuple[bool, str]:
         parts.append('Definition tag_id_dashed : bool := %s.  (* composite tag ids are name-components and version joined by - *)'
                      % ('true' if dashed else 'false'))
         parts.append('Definition nested_id_sep : str := %s.  (* type_info.j2: between the tag id and the nesting counter *)' % _s(sep))
+        troot = os.path.join(gen.REPO, 'src/nunavut/lang/html/templates')
+        parts.append('Definition links_skip_us : bool := %s.  (* type_info.j2 does not link types that are not listed (short name _) *)'
+                     % ('true' if us_link_state(troot) else 'false'))
+        parts.append('Definition ns_ids_dashed : bool := %s.  (* namespace ids are name components joined by - followed by --ns *)'
+                     % ('true' if ns_id_state(troot) else 'false'))
         names, _old_sinks = template_data(os.path.join(gen.REPO, 'src/nunavut/lang/html/templates'))
         precise = doc_sink_flags(os.path.join(gen.REPO, 'src/nunavut/lang/html/templates'))
         parts.append('Definition html_template_names : list str := [\n  %s].' % ';\n  '.join('%s (* %s *)' % (_s(n), n) for n in names))
@@ -792,6 +821,7 @@ class TemplateScan:
         self.outs: typing.List[dict] = []
         self.includes: typing.List[tuple] = []
         self.loopvars: typing.Dict[str, list] = {}
+        self.static_ids: typing.List[str] = []
         self.cur_macro: typing.Optional[str] = None
 
     def guards(self) -> typing.List[typing.Tuple[int, str]]:
@@ -866,6 +896,7 @@ class TemplateScan:
                 t = self.tag
                 c = s[i]
                 i += 1
+                t['raw'] = t.get('raw', '') + c
                 if not t['named']:
                     if c.isalnum() or c in '-:':
                         t['name'] += c
@@ -887,6 +918,9 @@ class TemplateScan:
     def end_tag(self):
         t = self.tag
         name = t['name'].lower()
+        for m in re.finditer(r'''(?<![-\w])id\s*=\s*(["'])(.*?)\1''', t.get('raw', ''), re.S):
+            if '\x00' not in m.group(2):
+                self.static_ids.append(m.group(2))
         self.mode, self.tag = 'text', None
         if not name:
             raise Unsupported('%s: tag without a name' % self.rel)
@@ -1021,6 +1055,7 @@ class TemplateScan:
         elif self.mode == 'tag':
             if not self.tag['quote']:
                 raise Unsupported('%s:%d: output in an unquoted tag position' % (self.rel, line))
+            self.tag['raw'] = self.tag.get('raw', '') + '\x00'
             ctx = CTX_ATTR
         elif self.mode == 'raw':
             ctx = RAW_ELEMENTS[self.raw]
@@ -1403,6 +1438,9 @@ def gen_htmlskel() -> typing.Tuple[bool, str]:
             '(%s (* %s *),\n   %s)' % (_s(k), k, body) for k, body in entries))
         parts.append('Definition html_entry_templates : list str := [%s].' % '; '.join(
             _s(r) for r in rels if r[:1].isupper()))
+        statics = [(rel, x) for rel in rels for x in scans[rel].static_ids]
+        parts.append('Definition html_static_ids : list (str * str) := [\n  %s].' % ';\n  '.join(
+            '(%s, %s) (* %s: id=%s *)' % (_s(a), _s(x), a, x) for a, x in statics))
         binds, cert = bindings_and_certificate(rels, scans, cl)
         parts.append('Definition html_bindings : list (str * str * str * jexpr) := [\n  %s].' % ';\n  '.join(
             '(%s, %s, %s, %s) (* %s.%s <- [%s] *)' % (_s(a), _s(x), _s(b), _jexpr(rhs), a, x, b) for a, x, b, rhs in binds))
